@@ -9,6 +9,8 @@
    missing last segment; never a missing referenced blob).  Inv' = Live0 /\ DiskOk' /\ FsWf. *)
 From Cas Require Import History.
 From CasProofs Require Import StoreFS StoreInv StoreHist DiskInv RestartHist CrashInv CrashOps CrashOpen CrashC20 CrashCas CrashHist.
+From Cas Require Conc.
+From CasProofs Require ConcInv ConcLin ConcDurable.
 
 (* from an empty directory, either choice of pre_create_cas_dirs (the first open creates the
    65,536 fan-out directories before it writes the settings file when c_pre cfg = true) *)
@@ -139,5 +141,69 @@ Theorem C03_C06_every_crash_point :
     CasNamed H (crash_fs n (rev (wtrace (snd (prog (init_world x None))))) x).
 Proof. exact CrashCas.cas_named_crash_fs. Qed.
 Print Assumptions C03_C06_every_crash_point.
+
+(* a kill at any position n of any schedule of CONCURRENT calls (proofs/ConcDurable.v; the
+   concurrent model's WLockW step = append the record + apply, one critical section): recovery
+   replays the records logged so far into exactly the key map the threads had at that position;
+   every recovered key has its complete blob on disk (C04); every writing call that had already
+   returned is in the replayed log.  [logged n] = operations of the write log of ConcLin.v up to
+   position n, [records n] = their records, versions 1, 2, ... *)
+Theorem C03_concurrent_kill_any_position :
+  forall H : bytes -> bytes,
+    (forall b, length (H b) = 32%nat) -> (forall b, Forall (fun x => x < 256) (H b)) ->
+  forall cfg : config, 0 < c_n cfg ->
+  forall (bad : bytes -> bool) (ckbad : bool) (thr0 : list (nat * list Conc.ccall)),
+    NoDup (map fst thr0) ->
+  forall cas0 : smap bytes,
+    SMap.sorted lex_cmp cas0 -> (forall h c, In (h, c) cas0 -> H c = h) ->
+    (forall a b, In a (ConcInv.allc thr0 cas0) -> In b (ConcInv.allc thr0 cas0) -> H a = H b -> a = b) ->
+  forall (sched : list nat) (n : nat), (n <= ConcLin.NN sched)%nat ->
+    Forall (op_good cfg) (ConcDurable.logged H cfg bad ckbad thr0 cas0 sched n) ->
+    exists st' : istate,
+      replay_records cfg 0 (ConcDurable.records H cfg bad ckbad thr0 cas0 sched n) empty_istate 0 0
+        = Ok (st', N.of_nat (length (ConcDurable.logged H cfg bad ckbad thr0 cas0 sched n)),
+                   N.of_nat (length (ConcDurable.logged H cfg bad ckbad thr0 cas0 sched n))) /\
+      km st' = km (Conc.g_idx (ConcLin.st H (key_cmp (c_kt cfg)) (c_n cfg) bad ckbad thr0 cas0 sched n)) /\
+      (forall k it, sm_get (key_cmp (c_kt cfg)) (km st') k = Some it ->
+         exists c, sm_get lex_cmp (Conc.g_cas (ConcLin.st H (key_cmp (c_kt cfg)) (c_n cfg) bad ckbad thr0 cas0 sched n)) (ihash it) = Some c
+                   /\ H c = ihash it /\ len c = isize it) /\
+      (forall t ts j c r,
+         ConcLin.tst H (key_cmp (c_kt cfg)) (c_n cfg) bad ckbad thr0 cas0 sched n t = Some ts ->
+         nth_error (ConcLin.prog thr0 cas0 t) j = Some c -> nth_error (Conc.t_res ts) j = Some r ->
+         ConcLin.writes c r = true ->
+         exists p o, In (ConcLin.mkWl p t j o) (ConcLin.wlog H (key_cmp (c_kt cfg)) (c_n cfg) bad ckbad thr0 cas0 sched n)).
+Proof. exact ConcDurable.C03_concurrent_kill_any_position. Qed.
+Print Assumptions C03_concurrent_kill_any_position.
+
+(* the same from hypotheses on the thread PROGRAMS alone: every key that is put is accepted by the
+   key type and shorter than 2^32 bytes, every content shorter than 2^64 bytes, and the store never
+   holds 2^32 keys (ConcDurable.logged_good derives that every logged operation fits the format) *)
+Theorem C03_concurrent_kill_any_position_programs :
+  forall H : bytes -> bytes,
+    (forall b, length (H b) = 32%nat) -> (forall b, Forall (fun x => x < 256) (H b)) ->
+  forall cfg : config, 0 < c_n cfg ->
+  forall (bad : bytes -> bool) (ckbad : bool) (thr0 : list (nat * list Conc.ccall)),
+    NoDup (map fst thr0) ->
+  forall cas0 : smap bytes,
+    SMap.sorted lex_cmp cas0 -> (forall h c, In (h, c) cas0 -> H c = h) ->
+    (forall a b, In a (ConcInv.allc thr0 cas0) -> In b (ConcInv.allc thr0 cas0) -> H a = H b -> a = b) ->
+  forall sched : list nat,
+    (forall t k x, In (Conc.KPut k x) (ConcLin.prog thr0 cas0 t) ->
+       (len k < 2 ^ 32 /\ key_valid (c_kt cfg) k = true) /\ len x < 2 ^ 64) ->
+  forall n : nat, (n <= ConcLin.NN sched)%nat ->
+    (forall q, (q <= n)%nat ->
+       N.of_nat (length (ConcLin.kmap H (key_cmp (c_kt cfg)) (c_n cfg) bad ckbad thr0 cas0 sched q)) < 2 ^ 32) ->
+    exists st' : istate,
+      replay_records cfg 0 (ConcDurable.records H cfg bad ckbad thr0 cas0 sched n) empty_istate 0 0
+        = Ok (st', N.of_nat (length (ConcDurable.logged H cfg bad ckbad thr0 cas0 sched n)),
+                   N.of_nat (length (ConcDurable.logged H cfg bad ckbad thr0 cas0 sched n))) /\
+      km st' = km (Conc.g_idx (ConcLin.st H (key_cmp (c_kt cfg)) (c_n cfg) bad ckbad thr0 cas0 sched n)) /\
+      rc st' = rc (Conc.g_idx (ConcLin.st H (key_cmp (c_kt cfg)) (c_n cfg) bad ckbad thr0 cas0 sched n)) /\
+      Conc.g_nextv (ConcLin.st H (key_cmp (c_kt cfg)) (c_n cfg) bad ckbad thr0 cas0 sched n)
+        = N.of_nat (length (ConcDurable.logged H cfg bad ckbad thr0 cas0 sched n)) + 1.
+Proof. exact ConcDurable.C03_concurrent_kill_any_position_programs. Qed.
+Print Assumptions C03_concurrent_kill_any_position_programs.
+
+Example C03_concurrent_nonvacuous := ConcDurable.C03_conc_programs_ex.
 
 Example C03_nonvacuous := CrashHist.toy_crash_theorem_instance.
